@@ -76,7 +76,9 @@ def safe_readable(handle):
     """Attempts to find if the handle is readable without throwing an error."""
     try:
         status = handle.readable()
-    except (OSError, ValueError):
+    except (OSError, ValueError, AttributeError):
+        # AttributeError: integer placeholders such as ``subprocess.STDOUT``
+        # (``e>o``) or the ``2`` flag (``o>e``) are not file objects.
         status = False
     return status
 
